@@ -11,18 +11,19 @@ VARIABLES cfg, st, out, res
 F == INSTANCE Fsm
 vars == <<cfg, st, out, res>>
 T == {0 - 1, 0, 1, 2}
-NoChain == [on |-> FALSE, goto |-> 0, e |-> 1, tag |-> 0, prop |-> 0, double |-> FALSE]
+NoChain == [on |-> FALSE, goto |-> 0, e |-> 1, tag |-> 0, prop |-> 0, double |-> FALSE, always |-> FALSE, cnd |-> 1]
 ChainOpts == IF ChainMode = "none" THEN {NoChain}
              ELSE IF ChainMode = "few" THEN
                   {NoChain,
-                   [on |-> TRUE, goto |-> 0, e |-> 1, tag |-> 9, prop |-> 1, double |-> FALSE],
-                   [on |-> TRUE, goto |-> 0, e |-> 2, tag |-> 9, prop |-> 0, double |-> FALSE],
-                   [on |-> TRUE, goto |-> 1, e |-> 1, tag |-> 9, prop |-> 0, double |-> FALSE],
-                   [on |-> TRUE, goto |-> 0, e |-> 2, tag |-> 9, prop |-> 0, double |-> TRUE]}
+                   [on |-> TRUE, goto |-> 0, e |-> 1, tag |-> 9, prop |-> 1, double |-> FALSE, always |-> FALSE, cnd |-> 1],
+                   [on |-> TRUE, goto |-> 0, e |-> 2, tag |-> 9, prop |-> 0, double |-> FALSE, always |-> FALSE, cnd |-> 1],
+                   [on |-> TRUE, goto |-> 1, e |-> 1, tag |-> 9, prop |-> 0, double |-> FALSE, always |-> FALSE, cnd |-> 1],
+                   [on |-> TRUE, goto |-> 0, e |-> 2, tag |-> 9, prop |-> 0, double |-> TRUE, always |-> FALSE, cnd |-> 1],
+                   [on |-> TRUE, goto |-> 0, e |-> 1, tag |-> 9, prop |-> 0, double |-> FALSE, always |-> TRUE, cnd |-> 0]}
              ELSE {NoChain} \cup
-                  {[on |-> TRUE, goto |-> g, e |-> e, tag |-> 9, prop |-> p, double |-> FALSE] :
+                  {[on |-> TRUE, goto |-> g, e |-> e, tag |-> 9, prop |-> p, double |-> FALSE, always |-> FALSE, cnd |-> 1] :
                        g \in {0, 1, 2}, e \in {1, 2}, p \in {0, 1}} \cup
-                  {[on |-> TRUE, goto |-> 0, e |-> 2, tag |-> 9, prop |-> 0, double |-> TRUE]}
+                  {[on |-> TRUE, goto |-> 0, e |-> 2, tag |-> 9, prop |-> 0, double |-> TRUE, always |-> FALSE, cnd |-> 1]}
 AnyT == IF ChainMode = "none" THEN T ELSE {0 - 1, 2}
 Init == /\ \E tr \in [1..M -> [1..N -> T]], an \in [1..M -> AnyT], c1 \in ChainOpts, c2 \in ChainOpts :
              cfg = [n |-> N, m |-> M, trans |-> tr, any |-> an,
